@@ -14,6 +14,16 @@ pub fn predicate(name: &str, case: &Value, fail: &Fail) -> bool {
             fail.category == "decode-differs"
                 && case.get("text").and_then(|t| t.as_str()).map(|t| t.starts_with('\u{feff}')).unwrap_or(false)
         }
+        // F12 (C11): recursive drop glue of a deeply nested tree (Vec / LinkedHashMap of nodes)
+        "c11_deep_tree_drop" => {
+            fail.category == "abort"
+                && matches!(case["api"].as_str(), Some("built_drop" | "load_str_drop" | "load_marked_drop"))
+                && case["depth"].as_u64().unwrap_or(0) >= 20_000
+        }
+        // F12 (C11): the emitter recurses per nesting level
+        "c11_deep_tree_emit" => {
+            fail.category == "abort" && case["api"].as_str() == Some("emit") && case["depth"].as_u64().unwrap_or(0) >= 20_000
+        }
         _ => false,
     }
 }
